@@ -197,8 +197,8 @@ def run_generators(ctx, st, pt, P: Pep):
         ctx.sig(('generator', fn, P.features()), bool(P.all_mods()))
 
 
-def cfg(max_len=40):
-    return gp.GenCfg(min_len=1, max_len=max_len, letters=LETTERS,
+def cfg(max_len=40, letters=None):
+    return gp.GenCfg(min_len=1, max_len=max_len, letters=letters or LETTERS,
                      weights={'int': 2, 'float': 3, 'formula': 2, 'unimod-name': 3, 'unimod-acc': 1, 'glycan': 1},
                      p_res=0.15, p_unknown=0.1, p_interval=0.2, p_charge=0.0, p_isotope=0.15, p_static=0.25,
                      p_static_term=0.2, p_labile=0.15, p_tag=0.03, p_alt=0.03, p_mult=0.08,
@@ -210,8 +210,10 @@ def run(ctx):
     pt = install(ctx, st)
     rng = ctx.rng
     big, small = cfg(40), cfg(12)
+    # tandem repeats / low-complexity proteins: a peptide occurs at several, overlapping offsets of its protein
+    rep = [cfg(14, list('AK')), cfg(16, list('KRE')), cfg(12, list('KDP'))]
     for i in range(ctx.n(4000, 150000)):
-        P = gp.gen_pep(rng, small if i % 2 else big)
+        P = gp.gen_pep(rng, rng.choice(rep) if i % 5 == 4 else small if i % 2 else big)
         rule = rng.choice(RULES)
         semi = rng.random() < 0.3
         if semi:
